@@ -1923,6 +1923,31 @@ def _check_adjusted_by_cases(sx: SymX, name: Term, P: Term, I: Term, guard: Form
     return verdicts[0] if verdicts else (None, "no feasible case of the import statement kinds")
 
 
+_TEXT_METHODS = {"startswith", "endswith", "partition", "rpartition", "split", "rsplit", "removeprefix", "removesuffix", "find", "rfind", "index", "count"}
+
+
+def _textual_test(t: Term, raw: set, I: Term) -> bool:
+    """A test on the *characters* of an imported name (`x.startswith(prefix + ".")`, `x.partition(".")[0] == prefix.partition(".")[0]`,
+    `x.split(".")[0] in (...)`, `x[:len(p)] == p`): it says nothing about which names were scanned, so in the decision table it is a
+    free variable next to the membership facts.  Tests for None / emptiness of the name are not textual (they select the statement
+    form), neither are membership tests in the internal-module set."""
+
+    def derived(x: Term) -> bool:
+        # a piece of text cut out of a raw name
+        for y in subterms(x):
+            if y[0] == "mcall" and y[1] in raw and y[2] in _TEXT_METHODS:
+                return True
+            if y[0] == "slice" and y[1] in raw:
+                return True
+        return False
+
+    if t[0] == "mcall" and t[1] in raw and t[2] in ("startswith", "endswith"):
+        return True
+    if t[0] == "cmp" and t[1] in ("==", "!=", "in", "not in") and t[3] != I:
+        return derived(t[2]) or derived(t[3]) or (t[1] in ("in", "not in") and t[3] in raw and not is_const(t[2], "")) or (t[1] in ("==", "!=") and (t[2] in raw or t[3] in raw) and not any(o[0] == "const" and o[1] in (None, "") for o in (t[2], t[3])))
+    return False
+
+
 def _check_adjusted(sx: SymX, name: Term, P: Term, I: Term, guard: Formula = TRUE):
     """Decision table of an absolute importee over membership of the candidate names in the internal-module set.
 
@@ -1959,9 +1984,9 @@ def _check_adjusted(sx: SymX, name: Term, P: Term, I: Term, guard: Formula = TRU
     # textual tests on the raw names (`x.startswith(prefix + ".")`) say nothing about what was scanned: free variables
     raw = {n[1]} | ({a[1]} if a is not None else set())
     textual = []
-    for k in sorted(_all_guard_atoms(sx, name, I)):
+    for k in sorted(_all_guard_atoms(sx, name, I) | atoms_of(guard)):
         t = sx.atoms.get(k)
-        if t is not None and t[0] == "mcall" and t[1] in raw and t[2] in ("startswith", "endswith") and ("truth", t) not in universe:
+        if t is not None and _textual_test(t, raw, I) and ("truth", t) not in universe:
             textual.append(t)
             universe = universe + [("truth", t)]
     labels = {P: "prefix", n[1]: "x"}
@@ -1971,8 +1996,10 @@ def _check_adjusted(sx: SymX, name: Term, P: Term, I: Term, guard: Formula = TRU
 
     def text(nm) -> str:
         if nm and nm[0] == "truth":
-            t_ = nm[1]
-            return f"{labels.get(t_[1], '?')}.{t_[2]}({', '.join(show(z, 40) for z in t_[3])})".replace(show(P), "prefix")
+            out_ = show(nm[1], 160)
+            for sym_, label_ in sorted(labels.items(), key=lambda kv: -len(show(kv[0]))):
+                out_ = out_.replace(show(sym_), label_)
+            return out_
         return ".".join(q[1] if q[0] == "c" else labels.get(q[1], show(q[1], 40)) for q in nm)
 
     mismatches = []
@@ -2009,7 +2036,9 @@ def _check_adjusted(sx: SymX, name: Term, P: Term, I: Term, guard: Formula = TRU
         tested = _prefix_tested(sx, name, P, I) or any(
             (t_ := sx.atoms.get(k_)) is not None and t_[0] == "cmp" and t_[1] == "in" and t_[3] == I and _prefix_tested(sx, t_[2], P, I) for k_ in atoms_of(guard)
         )
-        if all(p not in m[3] for m in mismatches) and not tested:
+        if any(k[0] == "truth" for k in inside):
+            why = "whether the name is adjusted depends on how the imported name is *spelled*, not only on which names were scanned - e.g. root `shop`, module_path `shop/shop`: `import shop.x` written relative to module_path's parent (`shop.shop.x` is scanned, `shop.x` is not) is mistaken for a fully qualified name and no longer resolves"
+        elif all(p not in m[3] for m in mismatches) and not tested:
             why = "its name never passes the root-prefix adjustment: imports written relative to module_path's parent no longer resolve when a sub-directory is scanned"
         elif a is not None and len(got) < len(expected):
             why = "the sub-module test is skipped or made on another name than the adjusted one: the importee is the package instead of the sub module"
